@@ -12,7 +12,7 @@ from .common import HEADER, FOOTER, contract, extract_struct, extract_struct_pri
 
 def build():
     u = Unit("u8_writer_tail")
-    u.rlimit = 400  # the tail region is one long straight-line proof (measured: ~120M rlimit units, 9 s)
+    u.rlimit = 150  # the tail region is one long straight-line proof (measured: ~120M rlimit units, 9 s)
     u.raw("#![feature(allocator_api)]\n" + HEADER, "header")
     u.raw("use std::collections::{BTreeMap, HashSet};\nuse std::io::Write;\n", "glue")
     raw = u.source("src/cache/raw.rs")
@@ -65,71 +65,85 @@ def build():
     p.body_start("proof { reveal(delivered_prefix); reveal(ext_by_zeros); }\n")
     u.emit(p)
     u.raw("}\n", "glue")
-    # ---------------- R5 region: the tail of ProguardCache::write ----------------
+    # ---------------- R5 regions: the tail of ProguardCache::write, cut into three consecutive pieces ----------------
+    # A = header part   [`let string_bytes = ..` , `let mut members = Vec::new();`)
+    # B = class loop    [`let mut members = Vec::new();` , end of the `for` block]
+    # C = the rest      (end of the `for` block , final `Ok(())`]
+    # and a hand-written composition `A?; B?; C` that is verified against the contract of the whole tail.
+    import re
+    from vf.unit import Fragment, AnchorLost
     wfn = raw.impl_fn(r"impl<'data> ProguardCache<'data>", "write")
-    reg = raw.region(wfn, "let string_bytes = string_table.into_bytes();", "Ok(())", "tail")
-    reg.contracted = True
-    reg.kind = "region"
-    reg.props_all = ["C15", "C09", "C10", "C03", "C02"]
-    reg.props_safety = ["C13"]
-    # R2 shims
-    reg.replace_re(r"classes\s*\.values\(\)\s*\.map\(\|c\| c\.class\.members_len\)\s*\.sum::<u32>\(\)", "shim_sum_members_len(&classes)", "R2",
-                   why="Iterator::map+sum over BTreeMap::values behind a shim (assumed: the u32 sum, panics on overflow => precondition)")
-    reg.replace_re(r"classes\s*\.values\(\)\s*\.map\(\|c\| c\.class\.members_by_params_len\)\s*\.sum::<u32>\(\)", "shim_sum_by_params_len(&classes)", "R2")
-    reg.replace("classes.len()", "shim_btree_len(&classes)", "R2", why="BTreeMap::len behind a shim")
-    # Pod::as_bytes behind shims, chosen by the receiver expression (generic, so that a wrong receiver is *verified*, not lost)
-    import re as _re
-    for m in _re.finditer(r"([a-z_]+(?:\.[a-z_]+)*)\.as_bytes\(\)", reg.orig):
-        recv = m.group(1)
-        shim = {"header": "shim_header_as_bytes", "c.class": "shim_class_as_bytes"}.get(recv, "shim_members_as_bytes")
-        reg.replace_span(m.start(), m.end(), "%s(&%s)" % (shim, recv), "R2",
-                         "Pod::as_bytes behind a shim (byte image abstract; layout pinned by Kani K1)")
-    reg.replace_re(r"members\.extend\(c\.members\.into_values\(\)\.flat_map\(\|m\| m\.into_iter\(\)\)\);", "shim_extend_flatten(&mut members, c.members);", "R2",
-                   why="Vec::extend(BTreeMap::into_values().flat_map(..)) behind a shim: appends the map's vectors in key order")
-    reg.replace_re(r"members_by_params\.extend\(\s*c\.members_by_params\s*\.into_values\(\)\s*\.flat_map\(\|m\| m\.into_iter\(\)\),?\s*\);", "shim_extend_flatten(&mut members_by_params, c.members_by_params);", "R2")
-    # ghost set-up at the start of the region: `done` tracks the bytes delivered so far (relative to sunk0)
-    reg.insert_at(0, """let ghost cs = vals(classes);
-        let ghost nn = cs.len() as int;
-        let ghost sunk0 = writer.inner.sunk();
-        let ghost strs = table_bytes(string_table);
+    tail = raw.region(wfn, "let string_bytes = string_table.into_bytes();", "Ok(())", "tail")
+    mb_ = tail._find("let mut members = Vec::new();")
+    tl = tail.loops()
+    if not tl:
+        raise AnchorLost("write tail: class loop not found")
+    loop_close = tl[0][3] + 1
+
+    def sub(a, b, name):
+        f = Fragment(u, tail.file, tail.src, tail.start + a, tail.start + b, "region", name)
+        f.qualname = "%s[%s]" % (wfn.qualname, name)
+        f.contracted = True
+        f.props_all = ["C15", "C09", "C10", "C03", "C02"]
+        f.props_safety = ["C13"]
+        return f
+    A = sub(0, mb_.start(), "tail-A:header")
+    B = sub(mb_.start(), loop_close, "tail-B:classes")
+    C = sub(loop_close, len(tail.orig), "tail-C:sections")
+
+    LPA = "hb, z1, cb, z2, mb, z3, pb, z4, strs"
+    GHOSTS = """let ghost nn = cs.len() as int;
         let ghost canon = canonical(cs, strs);
         let ghost hb = hdr_bytes(header_of(cs, strs));
         let ghost cb = classes_bytes(cs, nn);
         let ghost mb = members_bytes(all_members(cs, nn));
         let ghost pb = members_bytes(all_by_params(cs, nn));
-        let ghost mut done: Seq<u8> = Seq::empty();
         let ghost z1 = zeros(pad_len(hb.len() as int)); let ghost z2 = zeros(pad_len(cb.len() as int));
         let ghost z3 = zeros(pad_len(mb.len() as int)); let ghost z4 = zeros(pad_len(pb.len() as int));
         let ghost p2 = Seq::<u8>::empty() + hb + z1;
-        let ghost mut stage: int = 0;   // how many of the nine chunks (hb z1 cb z2 mb z3 pb z4 strs) have been delivered completely
         proof {
             axiom_record_sizes(); lemma_classes_len(cs, nn);
-            // the canonical layout as one left-nested concatenation; every cumulative prefix of it is a prefix of canon
             lemma_canonical_flat(cs, strs);
-            lemma_layout_prefixes(canon, hb, z1, cb, z2, mb, z3, pb, z4, strs);
-            lemma_add_empty(sunk0);
-            assert(done == layout_prefix(0, hb, z1, cb, z2, mb, z3, pb, z4, strs));
+            lemma_layout_prefixes(canon, %s);
+            lemma_tail_aligned(cs, strs);
         }
-        """)
-    # generic tracking of every `writer.write_all(X)?;` / `writer.pad_to_8()?;` statement, in whatever order they occur:
-    # before each one the obligation "what has been delivered plus this chunk is still a prefix of the canonical bytes".
-    import re
-    loops = reg.loops()
-    lo, hi = (loops[0][2], loops[0][3]) if loops else (-1, -1)
+        """ % LPA
+
+    def shims(reg):
+        reg.replace_all_re(r"classes\s*\.values\(\)\s*\.map\(\|c\| c\.class\.members_len\)\s*\.sum::<u32>\(\)", "shim_sum_members_len(&classes)", "R2",
+                           why="Iterator::map+sum over BTreeMap::values behind a shim (assumed: the u32 sum; panics on overflow => precondition)")
+        reg.replace_all_re(r"classes\s*\.values\(\)\s*\.map\(\|c\| c\.class\.members_by_params_len\)\s*\.sum::<u32>\(\)", "shim_sum_by_params_len(&classes)", "R2")
+        reg.replace_all_re(r"classes\.len\(\)", "shim_btree_len(&classes)", "R2", why="BTreeMap::len behind a shim")
+        for m in re.finditer(r"([a-z_]+(?:\.[a-z_]+)*)\.as_bytes\(\)", reg.orig):
+            recv = m.group(1)
+            shim = {"header": "shim_header_as_bytes", "c.class": "shim_class_as_bytes"}.get(recv, "shim_members_as_bytes")
+            reg.replace_span(m.start(), m.end(), "%s(&%s)" % (shim, recv), "R2",
+                             "Pod::as_bytes behind a shim (byte image abstract; layout pinned by Kani K1)")
+        reg.replace_all_re(r"members\.extend\(c\.members\.into_values\(\)\.flat_map\(\|m\| m\.into_iter\(\)\)\);", "shim_extend_flatten(&mut members, c.members);", "R2",
+                           why="Vec::extend(BTreeMap::into_values().flat_map(..)) behind a shim: appends the map's vectors in key order")
+        reg.replace_all_re(r"members_by_params\.extend\(\s*c\.members_by_params\s*\.into_values\(\)\s*\.flat_map\(\|m\| m\.into_iter\(\)\),?\s*\);", "shim_extend_flatten(&mut members_by_params, c.members_by_params);", "R2")
+
     CHUNKS = [(r"header\.as_bytes\(\)", "hdr_bytes(header)"), (r"c\.class\.as_bytes\(\)", "class_bytes(c.class)"),
               (r"&string_bytes", "string_bytes@"), (r"([a-z_]+)\.as_bytes\(\)", r"members_bytes(\1@)")]
-    for m in re.finditer(r"writer\s*\.\s*(write_all\((.*?)\)|pad_to_8\(\))\s*\?;", reg.orig, re.S):
-        inloop = lo < m.start() < hi
-        LP = "hb, z1, cb, z2, mb, z3, pb, z4, strs"
-        if m.group(1).startswith("pad_to_8"):
-            reg.insert_at(m.start(), """let ghost chunk = zeros(pad_len(writer.offset as int));
-        proof { /*@L:padding_is_the_next_chunk_of_the_layout:C15,C09,C10*/ assert(chunk == layout_chunk(stage + 1, %s));
+
+    def track(reg, inloop_range=None):
+        """generic tracking of every `writer.write_all(X)?;` / `writer.pad_to_8()?;` statement, in whatever order they occur"""
+        lo, hi = inloop_range or (-1, -1)
+        for m in re.finditer(r"writer\s*\.\s*(write_all\((.*?)\)|pad_to_8\(\))\s*\?;", reg.orig, re.S):
+            inloop = lo < m.start() < hi
+            if m.group(1).startswith("pad_to_8"):
+                reg.insert_at(m.start(), """let ghost chunk = zeros(pad_len(writer.offset as int));
+        proof { if stage >= 1 && stage %% 2 == 1 {
+                    assert(layout_prefix(stage - 1, %s) == tail_prefix(stage - 1, cs, strs));
+                    assert(done.len() == layout_prefix(stage - 1, %s).len() + layout_chunk(stage, %s).len());
+                    lemma_pad_arith(layout_prefix(stage - 1, %s).len() as int, layout_chunk(stage, %s).len() as int, writer.offset as int); }
+                /*@L:padding_is_the_next_chunk_of_the_layout:C15,C09,C10*/ assert(chunk == layout_chunk(stage + 1, %s));
                 assert(done + chunk == layout_prefix(stage + 1, %s));
                 lemma_track_pad(sunk0, done, pad_len(writer.offset as int), canon); }
-        """ % (LP, LP))
-            reg.insert_at(m.end(), """
-        proof { done = done + chunk; stage = stage + 1; assert(done == layout_prefix(stage, hb, z1, cb, z2, mb, z3, pb, z4, strs)); assert(writer.inner.sunk() == sunk0 + done); assert(writer.offset as int == done.len() %% 8); }""" % ())
-        else:
+        """ % (LPA, LPA, LPA, LPA, LPA, LPA, LPA))
+                reg.insert_at(m.end(), """
+        proof { done = done + chunk; stage = stage + 1; assert(done == layout_prefix(stage, %s)); assert(writer.inner.sunk() == sunk0 + done); assert(writer.offset as int == done.len() %% 8); }""" % LPA)
+                continue
             arg = m.group(2).strip()
             chunk = None
             for pat, rep in CHUNKS:
@@ -138,7 +152,6 @@ def build():
                     chunk = mm.expand(rep)
                     break
             if chunk is None:
-                from vf.unit import AnchorLost
                 raise AnchorLost("write_all argument %r has no known byte image" % arg)
             if inloop:
                 reg.insert_at(m.start(), """let ghost chunk = %s;
@@ -147,29 +160,66 @@ def build():
                 lemma_track_write(sunk0, done, chunk, canon); }
         """ % chunk)
                 reg.insert_at(m.end(), """
-        proof { done = done + chunk; assert(writer.inner.sunk() == sunk0 + done); assert(writer.offset as int == done.len() %% 8); }""" % ())
+        proof { done = done + chunk; assert(writer.inner.sunk() == sunk0 + done); assert(writer.offset as int == done.len() % 8); }""")
             else:
                 reg.insert_at(m.start(), """let ghost chunk = %s;
         proof { /*@L:chunk_is_the_next_chunk_of_the_layout:C15,C09,C10,C03,C02*/ assert(chunk == layout_chunk(stage + 1, %s));
                 assert(done + chunk == layout_prefix(stage + 1, %s));
                 lemma_track_write(sunk0, done, chunk, canon); }
-        """ % (chunk, LP, LP))
+        """ % (chunk, LPA, LPA))
                 reg.insert_at(m.end(), """
-        proof { done = done + chunk; stage = stage + 1; assert(done == layout_prefix(stage, hb, z1, cb, z2, mb, z3, pb, z4, strs)); assert(writer.inner.sunk() == sunk0 + done); assert(writer.offset as int == done.len() %% 8); }""" % ())
-    reg.insert_before("writer.write_all(header.as_bytes())", "proof { assert(header == header_of(cs, strs)); }\n        ") if "writer.write_all(header.as_bytes())" in " ".join(reg.orig.split()) else None
-    reg.for_to_loop(1, it_name="it", iter_expr="shim_into_values(classes)",
+        proof { done = done + chunk; stage = stage + 1; assert(done == layout_prefix(stage, %s)); assert(writer.inner.sunk() == sunk0 + done); assert(writer.offset as int == done.len() %% 8); }""" % LPA)
+
+    DOMAIN = "sum_members_len(vals(classes)) <= u32::MAX, sum_by_params_len(vals(classes)) <= u32::MAX,"
+    # ---- region A ----
+    shims(A)
+    A.insert_at(0, """let ghost cs = vals(classes);
+        let ghost strs = table_bytes(string_table);
+        let ghost sunk0 = writer.inner.sunk();
+        """ + GHOSTS + """let ghost mut done: Seq<u8> = Seq::empty();
+        let ghost mut stage: int = 0;
+        proof { lemma_add_empty(sunk0); assert(done == layout_prefix(0, %s)); }
+        """ % LPA)
+    track(A)
+    if re.search(r"writer\s*\.\s*write_all\(header\.as_bytes\(\)\)", A.orig):
+        A.insert_before("writer.write_all(header.as_bytes())", "proof { /*@L:header_fields_are_magic_version_and_counts:C09,C10*/ assert(header == header_of(cs, strs)); }\n        ")
+    u.emit(A, prefix="""fn region_tail_a<'d, W: Write>(writer: &mut PaddedWriter<W>, string_table: StringTable, classes: BTreeMap<&'d str, ClassInProgress<'d>>)
+        -> (ret: std::io::Result<(Vec<u8>, BTreeMap<&'d str, ClassInProgress<'d>>)>)
+    requires
+        old(writer).offset == 0,
+        // representable domain: the u32 sums in the header must not overflow (Iterator::sum panics in debug builds)
+        %s
+    ensures
+        /*@L:A_ok_header_and_padding_delivered:C15,C09,C10*/ ret is Ok ==> ({ let cs = vals(classes); let strs = table_bytes(string_table);
+            ret->Ok_0.0@ == strs && ret->Ok_0.1 == classes
+            && final(writer).inner.sunk() == old(writer).inner.sunk() + tail_prefix(2, cs, strs)
+            && final(writer).offset as int == tail_prefix(2, cs, strs).len() %% 8 }),
+        /*@L:A_err_means_only_a_prefix_was_delivered:C15*/ ret is Err ==> delivered_prefix(old(writer).inner.sunk(), final(writer).inner.sunk(), canonical(vals(classes), table_bytes(string_table))),
+{
+""" % DOMAIN, suffix="""
+    proof { /*@L:A_ends_after_the_padded_header:C15,C09,C10*/ assert(stage == 2); }
+    Ok((string_bytes, classes))
+}
+""")
+    # ---- region B ----
+    shims(B)
+    bl = B.loops()
+    B.insert_at(0, GHOSTS + """let ghost mut done: Seq<u8> = tail_prefix(2, cs, strs);
+        let ghost mut stage: int = 2;
+        """)
+    track(B, (bl[0][2], bl[0][3]))
+    B.for_to_loop(1, it_name="it", iter_expr="shim_into_values(classes)",
         after_decl="""let ghost mut n: int = 0;
-        proof { assert(cs.skip(0) == cs); /*@L:class_section_starts_after_padded_header:C15,C09,C10*/ assert(stage == 2); lemma_add_empty(p2); assert(done == p2 + classes_bytes(cs, 0)); }
+        proof { assert(cs.skip(0) == cs); lemma_add_empty(p2); assert(done == p2 + classes_bytes(cs, 0)); }
 """,
         spec="""            invariant
                 it.obeys_prophetic_iter_laws(), it.decrease() is Some,
                 0 <= n <= nn, nn == cs.len(), cs.skip(n) == it.remaining(),
-                cs == vals(classes), strs == table_bytes(string_table), sunk0 == old(writer).inner.sunk(),
+                cs == vals(classes), sunk0 == sunk0_, strs == strs_,
                 canon == canonical(cs, strs), hb == hdr_bytes(header_of(cs, strs)), hb.len() == 24,
-                cb == classes_bytes(cs, nn), mb == members_bytes(all_members(cs, nn)), pb == members_bytes(all_by_params(cs, nn)),
-                stage == 2, z1 == zeros(pad_len(hb.len() as int)), z2 == zeros(pad_len(cb.len() as int)), z3 == zeros(pad_len(mb.len() as int)), z4 == zeros(pad_len(pb.len() as int)),
-                forall|k: int| 0 <= k <= 9 ==> is_prefix_of(#[trigger] layout_prefix(k, hb, z1, cb, z2, mb, z3, pb, z4, strs), canon),
-                done == p2 + classes_bytes(cs, n), p2 == Seq::<u8>::empty() + hb + zeros(pad_len(hb.len() as int)), is_prefix_of(p2 + cb, canon),
+                cb == classes_bytes(cs, nn),
+                is_prefix_of(p2 + cb, canon),
+                done == p2 + classes_bytes(cs, n), p2 == Seq::<u8>::empty() + hb + zeros(pad_len(hb.len() as int)),
                 writer.inner.sunk() == sunk0 + done,
                 writer.offset as int == done.len() % 8,
                 members@ == all_members(cs, n), members_by_params@ == all_by_params(cs, n),
@@ -187,26 +237,66 @@ def build():
                 axiom_record_sizes(); lemma_classes_len(cs, i); lemma_classes_len(cs, nn);
             }
 """)
-    # end of the loop body: the two vectors hold the records of the first n classes
-    if loops:
-        reg.insert_at(hi, """proof { assert(members@ == all_members(cs, n)); assert(members_by_params@ == all_by_params(cs, n));
-                assert(done == p2 + classes_bytes(cs, n)); }
+    B.insert_at(bl[0][3], """proof { assert(members@ == all_members(cs, n)); assert(members_by_params@ == all_by_params(cs, n));
+                /*@L:one_class_record_per_class:C09,C10*/ assert(done == p2 + classes_bytes(cs, n)); }
         """)
-    # after the loop the whole class section has been delivered
-    if loops:
-        reg.insert_at(hi + 1, """
-        proof { assert(done == layout_prefix(3, hb, z1, cb, z2, mb, z3, pb, z4, strs)); stage = 3; }""")
-    reg.insert_at(len(reg.orig) - len("Ok(())"), "proof { /*@L:everything_was_written:C15,C09,C10*/ assert(stage == 9); assert(done == canon); }\n        ")
-    u.emit(reg, prefix="""fn region_write_tail<'d, W: Write>(writer: &mut PaddedWriter<W>, string_table: StringTable, classes: BTreeMap<&'d str, ClassInProgress<'d>>) -> (ret: std::io::Result<()>)
+    u.emit(B, prefix="""fn region_tail_b<'d, W: Write>(writer: &mut PaddedWriter<W>, classes: BTreeMap<&'d str, ClassInProgress<'d>>, Ghost(sunk0_): Ghost<Seq<u8>>, Ghost(strs_): Ghost<Seq<u8>>)
+        -> (ret: std::io::Result<(Vec<Member>, Vec<Member>)>)
+    requires
+        old(writer).inner.sunk() == sunk0_ + tail_prefix(2, vals(classes), strs_),
+        old(writer).offset as int == tail_prefix(2, vals(classes), strs_).len() % 8,
+    ensures
+        /*@L:B_ok_class_section_delivered:C15,C09,C10,C03,C02*/ ret is Ok ==> ({ let cs = vals(classes); let nn = cs.len() as int;
+            ret->Ok_0.0@ == all_members(cs, nn) && ret->Ok_0.1@ == all_by_params(cs, nn)
+            && final(writer).inner.sunk() == sunk0_ + tail_prefix(3, cs, strs_)
+            && final(writer).offset as int == tail_prefix(3, cs, strs_).len() % 8 }),
+        /*@L:B_err_means_only_a_prefix_was_delivered:C15*/ ret is Err ==> delivered_prefix(sunk0_, final(writer).inner.sunk(), canonical(vals(classes), strs_)),
+{
+    let ghost cs = vals(classes);
+    let ghost sunk0 = sunk0_;
+    let ghost strs = strs_;
+""", suffix="""
+    proof { assert(done == layout_prefix(3, hb, z1, cb, z2, mb, z3, pb, z4, strs)); }
+    Ok((members, members_by_params))
+}
+""")
+    # ---- region C ----
+    shims(C)
+    C.insert_at(0, GHOSTS + """let ghost mut done: Seq<u8> = tail_prefix(3, cs, strs);
+        let ghost mut stage: int = 3;
+        """)
+    track(C)
+    C.insert_at(len(C.orig) - len("Ok(())"), "proof { /*@L:everything_was_written:C15,C09,C10*/ assert(stage == 9); assert(done == canon); }\n        ")
+    u.emit(C, prefix="""fn region_tail_c<'d, W: Write>(writer: &mut PaddedWriter<W>, members: Vec<Member>, members_by_params: Vec<Member>, string_bytes: Vec<u8>,
+        Ghost(sunk0_): Ghost<Seq<u8>>, Ghost(cs_): Ghost<Seq<ClassInProgress<'d>>>) -> (ret: std::io::Result<()>)
+    requires
+        members@ == all_members(cs_, cs_.len() as int), members_by_params@ == all_by_params(cs_, cs_.len() as int),
+        old(writer).inner.sunk() == sunk0_ + tail_prefix(3, cs_, string_bytes@),
+        old(writer).offset as int == tail_prefix(3, cs_, string_bytes@).len() % 8,
+    ensures
+        /*@L:C_ok_means_canonical_bytes:C15,C09,C10,C03,C02*/ ret is Ok ==> final(writer).inner.sunk() == sunk0_ + canonical(cs_, string_bytes@),
+        /*@L:C_err_means_only_a_prefix_was_delivered:C15*/ ret is Err ==> delivered_prefix(sunk0_, final(writer).inner.sunk(), canonical(cs_, string_bytes@)),
+{
+    let ghost cs = cs_;
+    let ghost sunk0 = sunk0_;
+    let ghost strs = string_bytes@;
+""", suffix="\n}\n")
+    # ---- composition: the tail is A; B; C with `?` propagation (hand-written sequencing, verified against the whole-tail contract) ----
+    u.raw("""fn tail_composed<'d, W: Write>(writer: &mut PaddedWriter<W>, string_table: StringTable, classes: BTreeMap<&'d str, ClassInProgress<'d>>) -> (ret: std::io::Result<()>)
     requires
         old(writer).offset == 0,
-        // representable domain (the u32 sums in the header must not overflow: Iterator::sum panics in debug builds)
-        sum_members_len(vals(classes)) <= u32::MAX, sum_by_params_len(vals(classes)) <= u32::MAX,
+        %s
     ensures
         /*@L:ok_means_canonical_bytes:C15,C09,C10,C03,C02*/ ret is Ok ==> final(writer).inner.sunk() == old(writer).inner.sunk() + canonical(vals(classes), table_bytes(string_table)),
         /*@L:err_means_only_a_prefix_was_delivered:C15*/ ret is Err ==> delivered_prefix(old(writer).inner.sunk(), final(writer).inner.sunk(), canonical(vals(classes), table_bytes(string_table))),
 {
-""", suffix="\n}\n")
-
+    let ghost sunk0 = writer.inner.sunk();
+    let ghost cs = vals(classes);
+    let ghost strs = table_bytes(string_table);
+    let (string_bytes, classes) = region_tail_a(writer, string_table, classes)?;
+    let (members, members_by_params) = region_tail_b(writer, classes, Ghost(sunk0), Ghost(strs))?;
+    region_tail_c(writer, members, members_by_params, string_bytes, Ghost(sunk0), Ghost(cs))
+}
+""" % DOMAIN, "composition")
     u.raw(FOOTER, "footer")
     return u
